@@ -713,6 +713,18 @@ def rule_raw(ctx, F):
                        "inside an unsafe fn -- a value of the type that breaks its invariants is obtainable through the "
                        "safe API" % (ty, "; ".join(show(deep_strip(o))[:80] for o in ops) or "nothing"), b.where(bi))
     ctx.call_sites += n
+    # the project's convention: constructors that skip validation say so in their name and are `unsafe fn`
+    m = 0
+    for p, fn in sorted(F.fns.items()):
+        if "unchecked" not in fn["name"] or p.startswith(("new::", "<new::")):
+            continue
+        if not any(v in p for v in VALIDATED):
+            continue
+        m += 1
+        ctx.ob(R, p, "`%s` is an unsafe fn" % fn["name"], bool(fn["unsafe"]),
+               "%s skips validation by its own name but is a safe fn: any caller can build an invalid value without writing "
+               "`unsafe`" % p)
+    ctx.anchor(R, "unchecked constructors of the validated name types", m >= 8)
 
 
 def _validated_of(fn):
@@ -1182,3 +1194,9 @@ def rule_endl(ctx, F):
                    "length octet of the label under construction stays 0 — the finished name contains a root label "
                    "in the middle" % (p.split("::")[-1], ", ".join(h for _, h in bad)), b.where(e))
     ctx.call_sites += n
+
+
+def run_thorough(ctx):
+    # type-level part of the property: compile-fail witnesses (rules/witness.py)
+    import witness
+    witness.run(ctx, "C03")
